@@ -165,6 +165,12 @@ func N(base int) int {
 // Check runs a rapid property with base*scale cases.
 func Check(t *testing.T, base int, prop func(*rapid.T)) {
 	t.Helper()
+	if capturing {
+		if captured == nil {
+			captured = prop
+		}
+		return
+	}
 	if err := flag.Set("rapid.checks", strconv.Itoa(N(base))); err != nil {
 		t.Fatal(err)
 	}
@@ -239,4 +245,55 @@ func ReportKnown(property, key, what string) {
 	line := fmt.Sprintf("KNOWN-FINDING: property=%s key=%s %s", property, key, what)
 	fmt.Println(line)
 	Known(line)
+}
+
+// ---- coverage-guided structured fuzzing of the rapid properties (thorough tier) ----
+//
+// Every TestProp_* function hands exactly one property to Check. FuzzProp re-uses that very property (generator and
+// oracle unchanged) as a native fuzz target through rapid.MakeFuzz: the fuzzer's byte string becomes the generator's
+// random bit stream, so coverage feedback steers the *structured* generator. The property to fuzz is named by
+// VERIF_FUZZ_PROP (set by the driver); without it the target is skipped.
+
+var (
+	capturing bool
+	captured  func(*rapid.T)
+)
+
+func seedStream(i int) []byte {
+	// fixed pseudo-random seed corpus (xorshift), sizes 64..8192 bytes: random bit streams give the generators random cases
+	n := 64 << (uint(i) % 8)
+	b := make([]byte, n)
+	x := uint64(0x9E3779B97F4A7C15) * uint64(i+1)
+	for j := range b {
+		x ^= x << 13
+		x ^= x >> 7
+		x ^= x << 17
+		b[j] = byte(x >> 32)
+	}
+	return b
+}
+
+func FuzzProp(f *testing.F, props map[string]func(*testing.T)) {
+	name := os.Getenv("VERIF_FUZZ_PROP")
+	tp := props[name]
+	if tp == nil {
+		f.Skip("VERIF_FUZZ_PROP names no property of this package")
+	}
+	for i := 0; i < 32; i++ {
+		f.Add(seedStream(i))
+	}
+	var once sync.Once
+	var fn func(*testing.T, []byte)
+	f.Fuzz(func(t *testing.T, data []byte) {
+		once.Do(func() {
+			capturing = true
+			tp(t)
+			capturing = false
+			if captured == nil {
+				panic("ev.FuzzProp: " + name + " did not call ev.Check")
+			}
+			fn = rapid.MakeFuzz(captured)
+		})
+		fn(t, data)
+	})
 }
